@@ -9,6 +9,10 @@ VK_NOTE = ("trusted: the virtual kernel model (vk/kernel.hpp, vk/ops.hpp; bound 
            "oracle; the programs are the unmodified binaries built from /repo's working tree by its own Makefile")
 DAEMON_NOTE = VK_NOTE + "; spawners are controller scripts on the daemon's pipes (their own code is covered by C09/C11/C18), time is a virtual clock"
 CHECKS = {
+ "C08": dict(engine="SEQ", category="model_checking", design_ref="4/C08",
+             technique="explicit-state breadth-first search over SMTP command sequences on the real qmail-smtpd.c transition function (commands() loop, addrparse, rcpthosts, constmap, cdb_seek), de-duplicated on the server's own transaction state, for 90 configurations of rcpthosts/morercpthosts.cdb/badmailfrom/localiphost/RELAYCLIENT, against a reply-driven reference transaction machine and an independent policy function",
+             text="Open-relay and cross-transaction leakage bugs are reachable only through particular command orders and address spellings; all command sequences up to the depth bound (all reachable transaction states) are executed for every configuration and each reply and each submitted envelope is compared with the reference.",
+             note=SEQ_NOTE),
  "C11": dict(engine="VK", category="exploration", design_ref="4/C11",
              technique="bounded-exhaustive enumeration of users/assign tables compiled by the real qmail-newu x local parts through the real qmail-lspawn/spawn.c/qmail-getpw under the virtual kernel (virtual passwd, home ownership), identity observed at the exec of bin/qmail-local and compared with a reference lookup; cdb truncated at every length; every single failing call",
              text="The longest-match rules and the drop-privileges order matter only on overlapping tables and hostile local parts; every table of the bounded pool and every local part of the pool is run through the real programs and the credentials and argument vector at the exec are compared with the documented rules.",
